@@ -48,6 +48,7 @@ MARKER_PROPS = {
     "VF:string.columns.merge_dense": ["C12", "C10"],
     "VF:string.columns.merge_len": ["C12", "C10", "C01"],
     "VF:string.columns.len": ["C12", "C01", "C02"],
+    "VF:string.columns.forms.": ["C20"],
     "VF:string.slice.len": ["C01", "C02"],
     "VF:string.slice.into_owned": ["C14", "C01"],
     "VF:columns.forms.": ["C20", "C14"],
@@ -79,7 +80,7 @@ MARKER_PROPS = {
     "VF:coded_life.clear": ["C08"],
     "VF:coded_life.reserve": ["C10"],
     "VF:huffman.forms.": ["C20"],
-    "VF:huffman.forms.next_generation": ["C20", "C10"],
+    "VF:huffman.forms.next_generation": ["C20", "C10", "C06"],
     "VF:dictionary.": ["C07"],
     "VF:dictionary.read_differs_from_pushed": ["C07", "C01", "C04", "C10"],
     "VF:dictionary.covered_value_refused": ["C07", "C01", "C10"],
@@ -94,13 +95,20 @@ MARKER_PROPS = {
     "VF:result.into_owned": ["C14", "C01"],
     "VF:tuple.into_owned": ["C14", "C01"],
     "VF:intoowned.": ["C14"],
+    "VF:intoowned.slice.clone_onto": ["C14", "C01"],
+    "VF:intoowned.slice.into_owned": ["C14", "C01"],
+    "VF:intoowned.columns.clone_onto": ["C14", "C01"],
+    "VF:intoowned.columns.into_owned": ["C14", "C01"],
+    "VF:intoowned.nested.clone_onto": ["C14", "C01"],
+    "VF:intoowned.nested.into_owned": ["C14", "C01"],
+    "VF:intoowned.cip_opt": ["C12", "C01"],
     "VF:wrapped.": ["C15"],
     "VF:wrapped.into_owned": ["C14"],
     "VF:wrapped.clone_onto": ["C14"],
     "VF:wrapped.borrow_as": ["C14"],
     "VF:wrapped.region_to_region": ["C14", "C20"],
     "VF:cmp.": ["C15"],
-    "VF:intoowned.slice.region_to_region": ["C14", "C20"],
+    "VF:intoowned.slice.region_to_region": ["C14", "C20", "C13"],
     "VF:intoowned.slice.region_to_region_index": ["C20"],
     "VF:intoowned.cip": ["C14", "C20", "C12"],
     "VF:intoowned.optslice": ["C14", "C20"],
@@ -113,6 +121,8 @@ MARKER_PROPS = {
     "VF:intoowned.columns.region_to_region_index": ["C12"],
     "VF:intoowned.nested.region_to_region": ["C14", "C20"],
     "VF:flatstack.": ["C03"],
+    "VF:serde.": ["C16"],
+    "VF:serde.collapse.": ["C16", "C11"],
     "VF:flatstack.clone_from": ["C03", "C09"],
     "VF:flatstack.get.returned_out_of_bounds": ["C03", "C13"],
 }
@@ -202,7 +212,7 @@ def kani_run(harnesses, jobs, timeout):
         return {}, "", 0.0
     if not os.path.exists(os.path.join(KANI_DIR, "Cargo.lock")):
         subprocess.run(["cp", "/repo/Cargo.lock", KANI_DIR])
-    cmd = ["cargo", "kani", "--output-format", "regular"]   # (--jobs would force terse output, which drops per-check status)
+    cmd = ["cargo", "kani", "--no-default-features", "--output-format", "regular"]   # (--jobs would force terse output, which drops per-check status)
     for h in harnesses:
         cmd += ["--harness", h]
     t0 = time.time()
